@@ -227,6 +227,109 @@ theorem firstRegistered_register (entries : List ((String × String) × Tag)) (X
         simp only [List.takeWhile, hne]
         exact List.mem_cons_of_mem _ hc'
 
+/-! ### wildcard traversal -/
+
+/-- a strategy given by a state machine over the answers (`out (answers.foldl step s0)`), run
+    without caches, directly on the state -/
+def runSt {S : Type} (parse : Bool → String → P) (compute : R → String × String → Option H)
+    (out : S → Sum Query O) (step : S → Answer P H → S) (star : Bool) (reg : Nat → R) : Nat → S → Option O
+  | 0, _ => none
+  | fuel + 1, s =>
+    match out s with
+    | .inr o => some o
+    | .inl (.path text) => runSt parse compute out step star reg fuel (step s (.path (parse star text)))
+    | .inl (.handler rg ty op) =>
+      runSt parse compute out step star reg fuel (step s (.handler (compute (reg rg) (ty, op))))
+
+theorem runPure_fold {S : Type} (parse : Bool → String → P) (compute : R → String × String → Option H)
+    (out : S → Sum Query O) (step : S → Answer P H → S) (s0 : S) (star : Bool) (reg : Nat → R) :
+    ∀ (fuel : Nat) (answers : List (Answer P H)),
+      runPure parse compute (fun a => out (a.foldl step s0)) star reg fuel answers =
+        runSt parse compute out step star reg fuel (answers.foldl step s0) := by
+  intro fuel
+  induction fuel with
+  | zero => intro answers; rfl
+  | succ fuel ih =>
+    intro answers
+    simp only [runPure, runSt]
+    cases hq : out (answers.foldl step s0) with
+    | inr o => rfl
+    | inl q =>
+      cases q with
+      | path text => simp only; rw [ih]; simp [List.foldl_append]
+      | handler rg ty op => simp only; rw [ih]; simp [List.foldl_append]
+
+/-- from the first lookup of an item, the traversal finds for every remaining item what
+    `childUse` says, in order -/
+theorem runSt_star (parse : Bool → String → P) (compute : R → String × String → Option H) (star : Bool)
+    (reg : Nat → R) (rg : Nat) :
+    ∀ (tys : List String) (acc : List (StarUse H)) (fuel : Nat), 3 * tys.length + 1 ≤ fuel →
+      runSt parse compute (starOut rg) (starStep (P := P)) star reg fuel ⟨tys, .keys, acc⟩ =
+        some (acc.reverse ++ tys.map (childUse (compute (reg rg)))) := by
+  intro tys
+  induction tys with
+  | nil =>
+    intro acc fuel hf
+    obtain ⟨f, rfl⟩ : ∃ f, fuel = f + 1 := ⟨fuel - 1, by omega⟩
+    simp [runSt, starOut]
+  | cons ty rest ih =>
+    intro acc fuel hf
+    obtain ⟨f, rfl⟩ : ∃ f, fuel = f + 3 := ⟨fuel - 3, by simp only [List.length_cons] at hf; omega⟩
+    simp only [List.length_cons] at hf
+    simp only [List.map_cons, childUse]
+    cases hk : compute (reg rg) (ty, "keys") with
+    | some k =>
+      rw [runSt]; simp only [starOut, starStep, hk]
+      cases hg : compute (reg rg) (ty, "get") with
+      | some g =>
+        rw [runSt]; simp only [starOut, starStep, hg]
+        rw [ih _ (f + 1) (by omega)]; simp
+      | none =>
+        rw [runSt]; simp only [starOut, starStep, hg]
+        cases hi : compute (reg rg) (ty, "iterate") with
+        | some i =>
+          rw [runSt]; simp only [starOut, starStep, hi]
+          rw [ih _ f (by omega)]; simp
+        | none =>
+          rw [runSt]; simp only [starOut, starStep, hi]
+          rw [ih _ f (by omega)]; simp
+    | none =>
+      rw [runSt]; simp only [starOut, starStep, hk]
+      cases hi : compute (reg rg) (ty, "iterate") with
+      | some i =>
+        rw [runSt]; simp only [starOut, starStep, hi]
+        rw [ih _ (f + 1) (by omega)]; simp
+      | none =>
+        rw [runSt]; simp only [starOut, starStep, hi]
+        rw [ih _ (f + 1) (by omega)]; simp
+
+/-- a wildcard call without caches: per visited item, the handlers of the uncached lookups -/
+theorem runPure_star (parse : Bool → String → P) (compute : R → String × String → Option H) (star : Bool)
+    (reg : Nat → R) (rg : Nat) (tys : List String) (fuel : Nat) (hf : starFuel tys ≤ fuel) :
+    runPure parse compute (starStrategy rg tys) star reg fuel [] =
+      some (tys.map (childUse (compute (reg rg)))) := by
+  unfold starStrategy
+  rw [runPure_fold parse compute (starOut rg) (starStep (P := P)) ⟨tys, .keys, []⟩ star reg fuel []]
+  simp only [List.foldl_nil]
+  rw [runSt_star parse compute star reg rg tys [] fuel hf]
+  simp
+
+theorem refHistory_append_call (parse : Bool → String → P) (compute : R → String × String → Option H)
+    (strat : Strategy P H O) (fuel : Nat) :
+    ∀ (before : List (HOp P H O R)) (star : Bool) (reg : Nat → R),
+      refHistory parse compute star reg (before ++ [.call strat fuel]) =
+        refHistory parse compute star reg before ++
+          [runPure parse compute strat (starAfter star before) (regsAfter reg before) fuel []] := by
+  intro before
+  induction before with
+  | nil => intro star reg; simp [refHistory, starAfter, regsAfter]
+  | cons op rest ih =>
+    intro star reg
+    cases op with
+    | call s f => simp only [List.cons_append, refHistory, starAfter, regsAfter, ih]
+    | setStar b => simp only [List.cons_append, refHistory, starAfter, regsAfter, ih]
+    | register rg f => simp only [List.cons_append, refHistory, starAfter, regsAfter, ih]
+
 /-! ### `Vars` on the heap -/
 
 theorem hSet_length {V : Type} (h : VHeap V) (a : Nat) (d : VDict V) : (hSet h a d).length = h.length := by
